@@ -87,6 +87,7 @@ type memStream struct {
 	pos     int
 	endErr  error // returned when `in` is exhausted; nil = block forever
 	block   chan struct{}
+	onWrite func()
 }
 
 var errStreamWrite = &strErr{"mem stream: write failed"}
@@ -96,6 +97,9 @@ type strErr struct{ s string }
 func (e *strErr) Error() string { return e.s }
 
 func (s *memStream) Write(p []byte) (int, error) {
+	if s.onWrite != nil {
+		s.onWrite()
+	}
 	k := s.writes
 	s.writes++
 	if s.failAt >= 0 && k == s.failAt {
